@@ -344,10 +344,10 @@ checks["C15"] = dict(
         quick=[H("HarnessSizes", {"center": 0, "width": 20, "seg": 256}, shards=2, depth=2),
                H("HarnessSizes", {"center": 170, "width": 100, "seg": 256}, shards=6, depth=2),
                H("HarnessSizes", {"center": 65490, "width": 40, "seg": 1048576}, shards=6, depth=2),
-               H("HarnessSizes", {"center": 67108864, "width": 2, "enc": 1, "shapes": 1, "seg": 256}, heavy=True, timeout="25m", crossval=1)],
+               H("HarnessSizes", {"center": 67108864, "width": 2, "enc": 1, "shapes": 1, "seg": 256, "reopenfirst": 0}, heavy=True, timeout="25m", crossval=1)],
         thorough=[H("HarnessSizes", {"center": 0, "width": 64, "seg": 256}, shards=4, depth=2),
-                  H("HarnessSizes", {"center": 67108863, "width": 3, "enc": 1, "shapes": 3, "seg": 256}, heavy=True, timeout="60m", crossval=1),
-                  H("HarnessSizes", {"center": 67108863, "width": 3, "enc": 1, "shapes": 1, "seg": 134217728}, heavy=True, timeout="40m", crossval=1),
+                  H("HarnessSizes", {"center": 67108863, "width": 3, "enc": 1, "shapes": 3, "seg": 256, "reopenfirst": 0}, heavy=True, timeout="60m", crossval=1),
+                  H("HarnessSizes", {"center": 67108863, "width": 3, "enc": 1, "shapes": 1, "seg": 134217728, "reopenfirst": 0}, heavy=True, timeout="40m", crossval=1),
                   H("HarnessSizes", {"center": 150, "width": 200, "seg": 256}, shards=10, depth=2),
                   H("HarnessSizes", {"center": 0, "width": 200, "seg": 64}, shards=10, depth=2),
                   H("HarnessSizes", {"center": 65440, "width": 140, "seg": 1048576}, shards=14, depth=2, timeout="30m"),
@@ -395,5 +395,38 @@ checks["C06"] = dict(
     level_text="Bounded symbolic execution of the real WAL with goroutines as coroutines and a bounded number of preemptions explored as forks; a linearizability oracle on every reader result; counterexample schedules are replayed natively through the schedule points compiled in with -tags verif",
     level_note="data-race freedom not covered; bounded preemptions")
 
+# ---- thorough tier = the quick runs + the deeper candidate runs that were measured to complete -----
+# The lists written as `thorough=` above are CANDIDATES. tools/calibrate.py runs each one once on
+# the unchanged tree (engine only, time cap) and records the outcome in tools/thorough_calib.json;
+# only candidates that completed clean within the cap are registered, with a timeout of three
+# times what they took. A candidate that did not is left out (and listed, with the reason, in
+# the check's `thorough_not_registered`), so that the thorough command never reports a timeout
+# as anything but what it is.
+def run_key(r):
+    return "%s.%s %s" % (r["pkg"], r["fn"], json.dumps(r.get("params", {}), sort_keys=True))
+
+try:
+    CALIB = json.load(open(os.path.join(ROOT, "tools", "thorough_calib.json")))
+except Exception:
+    CALIB = {}
+candidates = {}
+for pid, c in checks.items():
+    quick = c["runs"]["quick"]
+    qkeys = {run_key(r) for r in quick}
+    cand = [r for r in c["runs"]["thorough"] if run_key(r) not in qkeys]
+    candidates[pid] = cand
+    extra, left = [], []
+    for r in cand:
+        m = CALIB.get(pid + " " + run_key(r))
+        if m and m.get("ok"):
+            r = dict(r)
+            secs = max(600, int(3 * m["wall"]) + 120)
+            r["timeout"] = "%dm" % ((secs + 59) // 60)
+            extra.append(r)
+        else:
+            left.append({"run": run_key(r), "why": (m or {}).get("why", "not measured")})
+    c["runs"]["thorough"] = [dict(r) for r in quick] + extra
+    c["thorough_not_registered"] = left
+json.dump(candidates, open(os.path.join(ROOT, "tools", "thorough_candidates.json"), "w"), indent=1)
 json.dump(checks, open(os.path.join(ROOT, "checks.json"), "w"), indent=1)
 print("checks:", sorted(checks))
